@@ -11,7 +11,7 @@ open Sv Sv.Gen.Proc
 
 /-- the three ways the retry counter can move in one operation -/
 def BStep (p q : Proc) : Prop :=
-  q.backoff = 0 ∨ (q.backoff = p.backoff ∧ (q.state = .backoff → p.state = .backoff)) ∨
+  (q.backoff = 0 ∧ q.state ≠ .backoff) ∨ (q.backoff = p.backoff ∧ (q.state = .backoff → p.state = .backoff)) ∨
   (q.backoff = p.backoff + 1 ∧ q.state = .backoff)
 
 theorem bstep_refl (p : Proc) : BStep p p := Or.inr (Or.inl ⟨rfl, id⟩)
@@ -38,14 +38,119 @@ theorem signal_bstep (cfg : Cfg) (now sig : Int) (kr : KillRes) (p : Proc) (os :
     BStep p (signal cfg now sig kr { p := p, outs := os }).p := by
   cases hs : p.state <;> cases kr <;> by_cases hp : p.pid = 0 <;> simp [procdefs, hs, hp, BStep, signallableStates]
 
-theorem finishCore_bstep (cfg : Cfg) (e : Env) (busy : Bool) (p : Proc) (os : List Out) :
+theorem finishCore_bstep (cfg : Cfg) (e : Env) (busy : Bool) (p : Proc) (os : List Out) (hnb : p.state ≠ .backoff) :
     BStep p (finishCore cfg e busy { p := p, outs := os }).p := by
-  cases hs : p.state <;> cases busy <;> cases hk : p.killing <;> cases ht : e.tooQuickly <;> cases hx : e.exitExpected <;>
+  cases hs : p.state <;> (try (exfalso; exact hnb hs)) <;> cases busy <;> cases hk : p.killing <;> cases ht : e.tooQuickly <;> cases hx : e.exitExpected <;>
     simp [procdefs, hs, hk, ht, hx, BStep]
 
-theorem toRunning_bstep (cfg : Cfg) (e : Env) (p : Proc) (os : List Out) : BStep p (toRunning cfg e { p := p, outs := os }).p := by
-  cases hs : p.state <;> cases h10 : transition_g10 p cfg e <;> cases h11 : transition_g11 p cfg e <;>
-    simp [toRunning, changeState, assertIn, emit, setP, guard, BStep, hs, h10, h11, transition_a4, transition_a5, transition_c0,
+theorem toRunning_bstep (cfg : Cfg) (e : Env) (p : Proc) (os : List Out) (hst : e.st0 = p.state) :
+    BStep p (toRunning cfg e { p := p, outs := os }).p := by
+  cases hs : p.state <;> cases h11 : transition_g11 p cfg e <;>
+    simp [toRunning, transition_g10, hst, changeState, assertIn, emit, setP, guard, BStep, hs, h11, transition_a4, transition_a5, transition_c0,
       transition_c1_0, change_state_g0, change_state_g1, change_state_a0, change_state_a2, change_state_a4, change_state_a5, announces_all]
+
+theorem giveUp_backoff_zero (cfg : Cfg) (now : Int) (p : Proc) (os : List Out) (hs : p.state = .backoff) :
+    (giveUp cfg now { p := p, outs := os }).p.backoff = 0 ∧ (giveUp cfg now { p := p, outs := os }).p.state ≠ .backoff := by
+  simp [procdefs, hs]
+
+theorem bstep_of_zero (p q : Proc) (h : q.backoff = 0 ∧ q.state ≠ .backoff) : BStep p q := Or.inl h
+
+/-- a pass moves the retry counter by one `BStep`; and when it forks a child out of BACKOFF (an
+    automatic retry) the counter is left as it was, was within the budget, and the process is STARTING -/
+theorem transition_bstep (os : List Out) (cfg : Cfg) (p : Proc) (now mood : Int) (res : SpawnRes) (kr : KillRes) (hnn : 0 ≤ p.backoff) :
+    BStep p (transition cfg now mood res kr { p := p, outs := os }).p ∧
+    (p.state = .backoff → forks (transition cfg now mood res kr { p := p, outs := os }).outs ≠ forks os →
+      p.backoff ≤ cfg.startretries ∧ (transition cfg now mood res kr { p := p, outs := os }).p.backoff = p.backoff ∧
+      (transition cfg now mood res kr { p := p, outs := os }).p.state = .starting) := by
+  obtain ⟨hs, _, _⟩ := rollback_fields cfg now p
+  have hb := rollback_backoff cfg now p
+  simp only [transition, guard, setP, transition_a1, Option.isSome_none, Bool.false_eq_true, if_false]
+  rw [← hs]
+  generalize rollback cfg now p = q at *
+  -- everything below is about q; transfer BStep from q to p at the end
+  have transfer : ∀ r : Proc, BStep q r → BStep p r := by
+    intro r h
+    rcases h with h | ⟨h1, h2⟩ | ⟨h1, h2⟩
+    · exact Or.inl h
+    · exact Or.inr (Or.inl ⟨by rw [h1, hb], fun hr => by rw [← hs]; exact h2 hr⟩)
+    · exact Or.inr (Or.inr ⟨by rw [h1, hb], h2⟩)
+  generalize he : ({ now := now, mood := mood, st0 := q.state } : Env) = e
+  have hst : e.st0 = q.state := by rw [← he]
+  have hnow : e.now = now := by rw [← he]
+  rcases autoStart_cases cfg e res { p := q, outs := os } with h | ⟨h, hc⟩
+  · -- no automatic start: nothing is forked
+    rw [h]
+    have hnf : forks (escalate cfg e kr (toRunning cfg e { p := q, outs := os })).outs = forks os := by
+      rw [escalate_noFork, toRunning_noFork]
+    refine ⟨transfer _ ?_, fun _ hf => absurd hnf hf⟩
+    cases hq : q.state
+    case starting =>
+      rw [escalate_id _ _ _ _ (by rw [hst, hq]; simp) (by rw [hst, hq]; simp)]
+      exact toRunning_bstep cfg e q os (by rw [hst])
+    case stopping =>
+      rw [toRunning_id _ _ _ (by rw [hst, hq]; simp)]
+      simp only [escalate, guard, transition_g12, transition_g14, hst, hq]
+      simp
+      split
+      · exact kill_bstep _ _ _ _ _ _
+      · exact bstep_refl q
+    case backoff =>
+      rw [toRunning_id _ _ _ (by rw [hst, hq]; simp)]
+      simp only [escalate, guard, transition_g12, transition_g14, hst, hq]
+      simp
+      split
+      · exact giveUp_bstep _ _ _ _
+      · exact bstep_refl q
+    all_goals
+      rw [toRunning_id _ _ _ (by rw [hst, hq]; simp), escalate_id _ _ _ _ (by rw [hst, hq]; simp) (by rw [hst, hq]; simp)]
+      exact bstep_refl q
+  · rw [h, hnow]
+    obtain ⟨hsb, hsf⟩ := spawn_bstep cfg now res q os
+    rcases hc with hc | hc | ⟨hc, hle⟩
+    · rw [toRunning_id _ _ _ (by rw [hc]; simp), escalate_id _ _ _ _ (by rw [hc]; simp) (by rw [hc]; simp)]
+      exact ⟨transfer _ hsb, fun hp' => by rw [← hst, hc] at hp'; simp at hp'⟩
+    · rw [toRunning_id _ _ _ (by rw [hc]; simp), escalate_id _ _ _ _ (by rw [hc]; simp) (by rw [hc]; simp)]
+      exact ⟨transfer _ hsb, fun hp' => by rw [← hst, hc] at hp'; simp at hp'⟩
+    · rw [toRunning_id _ _ _ (by rw [hc]; simp)]
+      simp only [escalate, guard, transition_g12, transition_g13, transition_g14, hc]
+      simp
+      have hle' : q.backoff ≤ cfg.startretries := by simpa using hle
+      have hfin : ∀ (r : S), r = spawn cfg now res { p := q, outs := os } →
+          BStep p r.p ∧ (q.state = PS.backoff → ¬forks r.outs = forks os →
+            p.backoff ≤ cfg.startretries ∧ r.p.backoff = p.backoff ∧ r.p.state = PS.starting) := by
+        intro r hr
+        subst hr
+        refine ⟨transfer _ hsb, ?_⟩
+        intro _ hf
+        have := hsf hf
+        exact ⟨by rw [← hb]; exact hle', by rw [this.1, hb], this.2⟩
+      simp only [hnow]
+      split
+      · exact hfin _ rfl
+      · split
+        · -- the spawn failed and the budget is used up: give_up resets the counter
+          rename_i hnerr hgt
+          have hsb2 : (spawn cfg now res { p := q, outs := os }).p.state = .backoff := by
+            -- the counter exceeded the budget, so the spawn must have failed: the process is in BACKOFF
+            rcases hsb with h0 | ⟨h1, _⟩ | ⟨_, h2⟩
+            · rw [h0.1] at hgt; have hle2 : q.backoff ≤ cfg.startretries := hle'; omega
+            · rw [h1] at hgt; omega
+            · exact h2
+          refine ⟨transfer _ (bstep_of_zero _ _ (by
+            generalize spawn cfg now res { p := q, outs := os } = r at hnerr hsb2
+            obtain ⟨rp, ros, rerr⟩ := r
+            cases rerr with
+            | some x => simp at hnerr
+            | none => exact giveUp_backoff_zero cfg now rp ros hsb2)), ?_⟩
+          intro _ hf
+          exfalso
+          -- a fork means the counter was not incremented, so it cannot exceed the budget
+          have hnf : forks (giveUp cfg now (spawn cfg now res { p := q, outs := os })).outs = forks (spawn cfg now res { p := q, outs := os }).outs :=
+            giveUp_noFork cfg now _
+          rw [hnf] at hf
+          have := hsf hf
+          rw [this.1] at hgt
+          omega
+        · exact hfin _ rfl
 
 end Sv.Proc
